@@ -162,6 +162,16 @@ pub fn restore_via(l: &PriceLevel, via: &str, lie: bool) -> Result<PriceLevel, S
             let js = if lie { PriceLevelSnapshotPackage::new(snap).map_err(e)?.to_json().map_err(e)? } else { l.snapshot_to_json().map_err(e)? };
             PriceLevel::from_snapshot_json(&js).map_err(e)
         }
+        // a package assembled by hand (public fields) around the possibly lying snapshot, with the
+        // checksum of exactly that content: it validates, and the aggregates must still be derived
+        "package_forged" => {
+            let p = PriceLevelSnapshotPackage { version: 1, checksum: crate::snap_drv::h_of(&snap), snapshot: snap };
+            PriceLevel::from_snapshot_package(p).map_err(e)
+        }
+        "json_forged" => {
+            let p = PriceLevelSnapshotPackage { version: 1, checksum: crate::snap_drv::h_of(&snap), snapshot: snap };
+            PriceLevel::from_snapshot_json(&p.to_json().map_err(e)?).map_err(e)
+        }
         "data" => {
             let mut d = PriceLevelData::from(l);
             if lie {
